@@ -27,6 +27,22 @@ SI = {"n": sp.Rational(1, 10 ** 9), "u": sp.Rational(1, 10 ** 6), "m": sp.Ration
       "c": sp.Rational(1, 100), "k": sp.Integer(1000), "": sp.Integer(1)}
 
 
+def mix_helper(ctx, I, w, mode):
+    """(qualified name, callable) of the private function that both mix_by_<mode>() and the '<mode>%' parse action hand their
+    (formula, quantity) pairs to - found through the call graph, not by its name"""
+    cg = ctx.src.callgraph()
+    a = ctx.src.func(f"formulas.mix_by_{mode}").qual
+    b = _action_qual(action(I, w, f"convert_by_{mode}"))
+    import networkx as nx
+    da = nx.descendants(cg, a) if a in cg else set()
+    direct_b = set(cg.successors(b)) if b in cg else set()
+    cand = sorted(q_ for q_ in direct_b & da if len(ctx.src.func(q_).node.args.args) == 1)
+    if len(cand) != 1:
+        raise AnalysisError(f"expected one pair-mixing helper shared by mix_by_{mode} and its parse action, found {cand}")
+    q_ = cand[0]
+    return q_, I.global_name(*q_.split(".", 1))
+
+
 def run(ctx):
     from ptstat import symval
     symval.OPTIONS["unit_groups"] = True     # only compositions are compared here, never nesting
@@ -40,6 +56,7 @@ def _run(ctx):
     w = world(ctx)
     I, A = w.I, w.atoms
     fm = I.global_name("formulas", "formula")
+    HELPER = {mode: mix_helper(ctx, I, w, mode) for mode in ("weight", "volume")}
     Fe, O, H = A["element"], A["element2"], A["H"]
     a = sp.symbols("a1:4", positive=True)
     q = sp.symbols("q1:4", positive=True)
@@ -57,10 +74,10 @@ def _run(ctx):
     M1, M2, M3 = a[0] * mFe, a[1] * mO + a[2] * mH, 2 * mH
 
     # ---- R1 the two helpers ------------------------------------------------------
-    for mode, helper, unit in (("weight", "_mix_by_weight_pairs", lambda M, dd: M),
-                               ("volume", "_mix_by_volume_pairs", lambda M, dd: M / dd)):
-        site = fsite(ctx, f"formulas.{helper}")
-        hf = I.global_name("formulas", helper)
+    for mode, helper, unit in (("weight", HELPER["weight"][0], lambda M, dd: M),
+                               ("volume", HELPER["volume"][0], lambda M, dd: M / dd)):
+        site = fsite(ctx, helper)
+        hf = HELPER[mode][1]
         # only the ratio of the quantities matters: very small (and very large) concrete quantities
         for scale_q in (sp.Rational(1, 10 ** 12), sp.Integer(10) ** 9):
             f1, f2, f3 = comps()
@@ -132,23 +149,23 @@ def _run(ctx):
         ctx.check(I.getattr(re_, "atoms") == {}, "R1", f"by {mode}: no components give the empty formula", "not empty", site)
     # missing densities
     f1, f2, f3 = comps(dens=(True, False, True))
-    r = I.call(I.global_name("formulas", "_mix_by_weight_pairs"), [[(f1, q[0]), (f2, q[1])]], {})
+    r = I.call(HELPER["weight"][1], [[(f1, q[0]), (f2, q[1])]], {})
     ctx.check(I.getattr(r, "density") is None, "R1", "by weight: unknown component density leaves the mixture density unknown",
-              f"density {_s(I.getattr(r, 'density'))}", fsite(ctx, "formulas._mix_by_weight_pairs"))
-    rr = raises(lambda: I.call(I.global_name("formulas", "_mix_by_volume_pairs"), [[(f1, q[0]), (f2, q[1])]], {}))
+              f"density {_s(I.getattr(r, 'density'))}", fsite(ctx, HELPER["weight"][0]))
+    rr = raises(lambda: I.call(HELPER["volume"][1], [[(f1, q[0]), (f2, q[1])]], {}))
     ctx.check(rr == "ValueError", "R1", "by volume: unknown component density raises ValueError", f"got {rr}",
-              fsite(ctx, "formulas._mix_by_volume_pairs"))
+              fsite(ctx, HELPER["volume"][0]))
     ctx.floor("R1", 38)
 
     # ---- R2 call forms and string forms reach the same helpers ---------------------
     cg = ctx.src.callgraph()
     aq = lambda role: _action_qual(action(I, w, role))
-    for caller, callee in (("formulas.mix_by_weight", "formulas._mix_by_weight_pairs"),
-                           ("formulas.mix_by_volume", "formulas._mix_by_volume_pairs"),
-                           (aq("convert_by_weight"), "formulas._mix_by_weight_pairs"),
-                           (aq("convert_by_volume"), "formulas._mix_by_volume_pairs"),
-                           (aq("convert_by_layer"), "formulas._mix_by_volume_pairs"),
-                           (aq("convert_by_absmass"), "formulas._mix_by_weight_pairs")):
+    for caller, callee in (("formulas.mix_by_weight", HELPER["weight"][0]),
+                           ("formulas.mix_by_volume", HELPER["volume"][0]),
+                           (aq("convert_by_weight"), HELPER["weight"][0]),
+                           (aq("convert_by_volume"), HELPER["volume"][0]),
+                           (aq("convert_by_layer"), HELPER["volume"][0]),
+                           (aq("convert_by_absmass"), HELPER["weight"][0])):
         import networkx as nx
         caller, callee = ctx.src.func(caller).qual, ctx.src.func(callee).qual      # (a moved and re-exported helper keeps its role)
         ctx.check(caller in cg and callee in cg and nx.has_path(cg, caller, callee), "R2", f"{caller.split('.')[-1]} -> {callee.split('.')[-1]}",
@@ -156,7 +173,7 @@ def _run(ctx):
     # the call forms: argument handling
     for mode in ("weight", "volume"):
         fn = I.global_name("formulas", f"mix_by_{mode}")
-        hf = I.global_name("formulas", f"_mix_by_{mode}_pairs")
+        hf = HELPER[mode][1]
         site = fsite(ctx, f"formulas.mix_by_{mode}")
         f1, f2, f3 = comps()
         r = I.call(fn, [f1, q[0], f2, q[1]], {})
@@ -188,7 +205,7 @@ def _run(ctx):
     I.positive = [100 - p1 - p2, 100 - p1, 100 - p2]      # the percentages leave a positive remainder
     for mode in ("weight", "volume"):
         act = action(I, w, f"convert_by_{mode}")
-        hf = I.global_name("formulas", f"_mix_by_{mode}_pairs")
+        hf = HELPER[mode][1]
         site = action_site(ctx, I, w, f"convert_by_{mode}")
         f1, f2, f3 = comps()
         r = I.call(act, ["<s>", 0, [p1, f1, p2, f2, f3]], {})
@@ -214,7 +231,7 @@ def _run(ctx):
     # layers
     act = action(I, w, "convert_by_layer")
     site = action_site(ctx, I, w, "convert_by_layer")
-    hv = I.global_name("formulas", "_mix_by_volume_pairs")
+    hv = HELPER["volume"][1]
     t1, t2 = sp.symbols("t1 t2", positive=True)
     LU = I.global_name("formulas", "LENGTH_UNITS")
     for u1, u2 in (("nm", "um"), ("mm", "cm")):
@@ -242,7 +259,7 @@ def _run(ctx):
     # absolute masses and volumes
     act = action(I, w, "convert_by_absmass")
     site = action_site(ctx, I, w, "convert_by_absmass")
-    hw = I.global_name("formulas", "_mix_by_weight_pairs")
+    hw = HELPER["weight"][1]
     v1, v2 = sp.symbols("v1 v2", positive=True)
     for u1, u2 in (("mg", "kg"), ("g", "ug"), ("ng", "g")):
         f1, f2, f3 = comps()
